@@ -260,16 +260,20 @@ chk("C09", "model_checking",
 EXTRA = {
  "C01": "The flag catalogue holds one keyword in three spellings decoded in one process (a keyword is delivered as written, whatever was decoded before); "
         "string catalogue values are followed by sentinels so that a decoder reading past its value is seen, and after every representation the same decoder "
-        "is asked for the tokens that follow (a decoder left unusable is reported as poisoned); the mailbox catalogue has names of more than 128 octets of UTF-8.",
+        "is asked for the tokens that follow (a decoder left unusable is reported as poisoned); the mailbox catalogue has names of more than 128 octets of UTF-8; one Decoder of each side decodes several thousand conforming representations in "
+        "a row (what it hands out for the n-th value must not depend on the values before).",
+ "C02": "The value space includes keywords spelled like system flags without the backslash (Seen, deleted, RECENT) in search criteria and flag lists.",
  "C03": "The catalogue includes SEARCH results of 2500 and 1000+1501 numbers, LIST data crossed with the (reference, pattern) the command was issued with, "
         "and literal-carrying data in every position.",
  "C04": "Sessions with their own SASL mechanisms are a start configuration; unit AUTH-FINAL (a mechanism that ends with data for the client) must consume the "
         "client's answer; a server that stops answering after an authentication it accepted is reported as out-of-step. Units APPEND-fail / APPEND-panic: a backend "
         "that refuses or panics before it has read the literal it was handed (the octets still on the wire are message data); units TAG-lit / UID-lit: a literal "
-        "where the command name should be (such a line may end the connection, nothing of the literal may be executed).",
+        "where the command name should be (such a line may end the connection, nothing of the literal may be executed); the line that answers a continuation request is followed in the same write "
+        "by a NOOP that must be answered.",
  "C05": "SessionSASL backends (PLAIN, XTEST) are a configuration; AUTHENTICATE with its credentials on the command line or after the continuation request, "
         "accepted, rejected or cancelled, is an action; Authenticate counts as a credential-bearing backend call. Quick replays the transitions of the 32 "
-        "core configurations, thorough all of them.",
+        "core configurations, thorough all of them. STARTTLS-GARBAGE: after the OK no handshake but octets that are no TLS record, then plaintext commands - the "
+        "connection is over, nothing is executed.",
  "C06": "Transcripts include a LITERAL+ server with literals at and over the limits, credentials the backend rejects nine times in a row through LOGIN and both forms "
         "of AUTHENTICATE, SEARCH keys nested up to 20000 deep (NestMax: beyond the bound the backend is not reached); cut kinds include the peer vanishing "
         "altogether (gone), before the greeting (doa) and Server.Close; a third server upgrades its connections (STARTTLS, handshake, transcript inside TLS); when every "
@@ -282,9 +286,11 @@ EXTRA = {
  "C10": "The client's own read deadline is part of the model: none between responses, armed inside a response and while a literal is consumed; SpecNoClose (a caller "
         "that never closes the client) satisfies StallInsideResponseTimesOut, and every recorded run carries mid (cut inside a response) and self (all calls returned "
         "before the caller's Close), judged by fault = stall /\\ inside => self. Scripts: mail, auth, idlepipe, unsol, stream (incl. a caller that takes its time "
-        "between calls), conc (2 and 3 goroutines), ext (extension commands), authslow (AUTHENTICATE / APPEND / IDLE over a connection whose writes return late).",
+        "between calls), conc (2 and 3 goroutines), ext (extension commands), authslow (AUTHENTICATE / APPEND / IDLE over a connection whose writes return late). After the first failure one more command is issued: it has to fail, "
+        "and at once (IssueDead; End.dead in the trace).",
  "C13": "The stress driver also issues LOGIN answered without CAPABILITY code (the client's internal CAPABILITY command competes with the other goroutines) and "
         "APPEND; it selects, expunges and gets unilateral EXISTS / EXPUNGE / FLAGS while other goroutines read the snapshots Client.Mailbox() hands out; "
+        "it authenticates (continuation request, response, completion), and one round in three runs over a connection whose writes return late; "
         "the hook log of a round is taken at quiescence.",
  "C14": "IdleNotify.tla specifies the wake-up protocol between a command holding the mailbox lock and an idling session (bounded channel, non-blocking send; the "
         "blocking variant is the vacuity guard) and is replayed for every (client behaviour x burst class) on the real server; its safety part (no stuck "
@@ -297,7 +303,8 @@ EXTRA = {
         "every third long string is made of runs of one class of character.",
  "C17": "Sessions with their own SASL mechanisms are among the configurations; AUTHENTICATE-X lines in front of and behind the STARTTLS line; on the client side "
         "capabilities announced in plaintext between the STARTTLS command and its OK, and on that OK itself (exchange line TOKC), are plaintext knowledge "
-        "(ClientTrustsOnlyTLS); nothing a server writes before TLS is active may offer an authentication mechanism when InsecureAuth is off.",
+        "(ClientTrustsOnlyTLS); a continuation request written in plaintext in front of the completion (CONT) must not satisfy a command issued inside TLS (the harness "
+        "issues IDLE after the upgrade); nothing a server writes before TLS is active may offer an authentication mechanism when InsecureAuth is off.",
  "C18": "Dimensions stale (capabilities invalidated by LOGIN and not yet re-announced advertise nothing), unauth (UNAUTHENTICATE undoes every ENABLE) and saslir "
         "(initial response on the command line only with SASL-IR or IMAP4rev2); APPEND written in split writes and with a mailbox name that is a literal of its own "
         "(AnnounceAgain: several synchronising literals in one command); 17 commands carrying caller-supplied strings.",
@@ -305,10 +312,11 @@ EXTRA = {
         "set value that must survive And; And leaves its operands alone and a result stays what it is when other criteria are derived from the same operands.",
  "C20": "Random vectors include spellings of 'inbox' as first hierarchy component of name and pattern (ordinary characters to the matcher).",
  "C11": "Bases include the short form of an encapsulated message (message/rfc822 with the basic fields only), alone and inside a multipart; every accessor of "
-        "every delivered value is called inside recover.",
- "C07": "The replay stops once 2000 mismatches have been recorded (behaviours that wait for a missing response each wait 2 s).",
+        "every delivered value is called inside recover; context enable2: ENABLE in a session that follows UNAUTHENTICATE.",
+ "C07": "The replay stops once 2000 mismatches have been recorded (behaviours that wait for a missing response each wait 2 s); the spelling of the command that "
+        "polls without EXPUNGE varies (FETCH / fetch / Fetch).",
  "C12": "Client.tla covers 37 command kinds (incl. SORT, THREAD, quota, metadata, NAMESPACE, ENABLE, MOVE, APPEND with synchronising literal, IDLE, AUTHENTICATE with "
-        "its continuation request, DELETE / RENAME / SUBSCRIBE / UNSUBSCRIBE / SETQUOTA / SETMETADATA, LIST with a reference) and is instantiated "
+        "its continuation request, DELETE / RENAME / SUBSCRIBE / UNSUBSCRIBE / SETQUOTA / SETMETADATA, LIST with a reference; SubmitDead: a command submitted after the connection has been lost completes at once with an error) and is instantiated "
         "nine times through Kinds/Greetings; the generator's view carries the completions witnessed per pending command, and the pipe instance enumerates every "
         "behaviour of a small pipeline alphabet to depth 6/7.",
 }
